@@ -92,19 +92,19 @@ theorem C09_flat_text_to_flat_values (env : TextEnv) (ev : Line → Option PyLit
 /-- a member or replication-factor line `indent descriptor description value`: the value is appended, whatever
     the description (name) is -/
 theorem C09_nested_text_value_line_appended (env : TextEnv) (ev : Line → Option PyLit) (indent : Line) (k : VKind)
-    (d : DDesc) (v : Val) (hi : IndentOK indent) (h3 : (descStr d).head? ≠ some '3') (h : ReprOK env ev v) :
+    (d : DDesc) (v : Val) (hi : IndentOK indent) (h3 : (descStr d).head? ≠ some '3') (h : ReprCore env ev v) :
     ntClassify ev (ntValueLine env indent false k d v) = .append (.val v) :=
   classify_value_line env ev indent k d v hi h3 h
 
 /-- an attribute line `indent -> descriptor ...` whose descriptor is not an associated field is skipped -/
 theorem C09_nested_text_virtual_attribute_skipped (env : TextEnv) (ev : Line → Option PyLit) (indent : Line) (k : VKind)
-    (d : DDesc) (v : Val) (hi : IndentOK indent) (hd : d.isAssoc = false) (h : ReprOK env ev v) :
+    (d : DDesc) (v : Val) (hi : IndentOK indent) (hd : d.isAssoc = false) (h : ReprCore env ev v) :
     ntClassify ev (ntValueLine env indent true k d v) = .skip :=
   classify_attr_skip env ev indent k d v hi hd h
 
 /-- the attribute line of an associated field `indent -> A..... ...`: its value is inserted before the owner's -/
 theorem C09_nested_text_associated_field_inserted (env : TextEnv) (ev : Line → Option PyLit) (indent : Line) (k : VKind)
-    (d : DDesc) (v : Val) (hi : IndentOK indent) (hd : d.isAssoc = true) (h : ReprOK env ev v) :
+    (d : DDesc) (v : Val) (hi : IndentOK indent) (hd : d.isAssoc = true) (h : ReprCore env ev v) :
     ntClassify ev (ntValueLine env indent true k d v) = .insert (.val v) :=
   classify_attr_insert env ev indent k d v hi hd h
 
@@ -158,7 +158,7 @@ theorem C09_nested_text_subset_partial (env : TextEnv) (ev : Line → Option PyL
     (src o : SubsetOut) (w : Wired) (tree : List Node) (lines : List Line)
     (h : wireRaw t src = .ok w) (hs : w.sideOK o = true) (htree : w.tree = .ok tree)
     (ht : textOKList o tree = true) (hl : ntSubsetLines env o tree = .ok lines)
-    (hrepr : ∀ v ∈ o.vals, ReprOK env ev v)
+    (hrepr : ∀ v ∈ o.vals, ReprCore env ev v)
     (rest : List Line) (pre : List (List PyLit)) (cur : List PyLit) :
     ntLoop ev (lines ++ rest) (pre ++ [cur]) = ntLoop ev rest (pre ++ [cur ++ o.vals.map PyLit.val]) := by
   unfold Wired.sideOK at hs
@@ -191,7 +191,7 @@ def TextSubset.OK (t : List Desc) (s : TextSubset) : Prop :=
 theorem text_subsets_loop (env : TextEnv) (ev : Line → Option PyLit) (t : List Desc) (n : Nat) (hdr : Line)
     (rest : List Line) (hhdr : ntClassify ev hdr = .stop) :
     ∀ (subs : List TextSubset) (i : Nat) (lines : List Line) (pre : List (List PyLit)),
-      (∀ s ∈ subs, s.OK t) → (∀ s ∈ subs, ∀ v ∈ s.out.vals, ReprOK env ev v) →
+      (∀ s ∈ subs, s.OK t) → (∀ s ∈ subs, ∀ v ∈ s.out.vals, ReprCore env ev v) →
       ntSubsetsFrom env n i (subs.map (·.out)) (subs.map (·.tree)) = .ok lines →
       ntLoop ev (lines ++ hdr :: rest) pre = .ok (hdr :: rest, pre ++ subs.map fun s => s.out.vals.map PyLit.val)
   | [], i, lines, pre, _, _, hl => by
@@ -239,7 +239,7 @@ theorem text_subsets_loop (env : TextEnv) (ev : Line → Option PyLit) (t : List
 theorem C09_nested_text_to_flat_partial (env : TextEnv) (ev : Line → Option PyLit) (t : List Desc)
     (subs : List TextSubset) (lines : List Line) (hdr : Line) (rest : List Line)
     (hhdr : ntClassify ev hdr = .stop)
-    (hok : ∀ s ∈ subs, s.OK t) (hrepr : ∀ s ∈ subs, ∀ v ∈ s.out.vals, ReprOK env ev v)
+    (hok : ∀ s ∈ subs, s.OK t) (hrepr : ∀ s ∈ subs, ∀ v ∈ s.out.vals, ReprCore env ev v)
     (hl : nestedTextLines env (subs.map (·.out)) (subs.map (·.tree)) = .ok lines) :
     nestedTextToFlat ev (lines ++ hdr :: rest) = .ok (hdr :: rest, subs.map fun s => s.out.vals.map PyLit.val) := by
   unfold nestedTextToFlat
